@@ -3,7 +3,9 @@ package main
 import (
 	"crypto/tls"
 	"net"
+	"os"
 	"strings"
+	"sync"
 	"syscall"
 	"time"
 
@@ -81,13 +83,31 @@ func c01TxReal(in []string) (out string) {
 	conf := &modbus.ClientConfiguration{Timeout: 120 * time.Millisecond, Logger: quiet,
 		TLSClientCert: cert, TLSRootCAs: pool, Speed: 115200}
 
-	type seen struct {
-		kind string
-		data []byte
+	// the peer collects everything it receives until it is told to stop; the
+	// verdict is taken after the client call has returned (the request is
+	// written before the client starts waiting), so machine load cannot make
+	// the peer miss a transmitted frame
+	var mu sync.Mutex
+	var got []byte
+	kindSeen := ""
+	stop := make(chan struct{})
+	stopped := func() bool {
+		select {
+		case <-stop:
+			return true
+		default:
+			return false
+		}
 	}
-	res := make(chan seen, 4)
+	collect := func(kind string, b []byte) {
+		mu.Lock()
+		kindSeen = kind
+		got = append(got, b...)
+		mu.Unlock()
+	}
 	var cleanup []func()
 	defer func() {
+		close(stop)
 		for _, f := range cleanup {
 			f()
 		}
@@ -103,21 +123,47 @@ func c01TxReal(in []string) (out string) {
 			return
 		}
 		defer c.Close()
-		first := c16ReadBurst(c, 1500*time.Millisecond)
+		readLoop := func(rd net.Conn, kind string, pre []byte) {
+			if len(pre) > 0 {
+				collect(kind, pre)
+			}
+			buf := make([]byte, 4096)
+			for !stopped() {
+				rd.SetReadDeadline(time.Now().Add(20 * time.Millisecond))
+				n, err := rd.Read(buf)
+				if n > 0 {
+					collect(kind, buf[:n])
+				}
+				if err != nil && !os.IsTimeout(err) {
+					return
+				}
+			}
+		}
+		// first bytes decide: TLS handshake record or plain bytes
+		var first []byte
+		buf := make([]byte, 4096)
+		for len(first) == 0 && !stopped() {
+			c.SetReadDeadline(time.Now().Add(20 * time.Millisecond))
+			n, err := c.Read(buf)
+			first = append(first, buf[:n]...)
+			if err != nil && !os.IsTimeout(err) {
+				return
+			}
+		}
 		if len(first) >= 3 && first[0] == 0x16 && first[1] == 0x03 {
 			ts := tls.Server(&c16Replay{Conn: c, pre: first}, &tls.Config{
 				Certificates: []tls.Certificate{*cert}, ClientAuth: tls.RequireAnyClientCert,
 				MinVersion: tls.VersionTLS12})
-			c.SetDeadline(time.Now().Add(3 * time.Second))
+			c.SetDeadline(time.Now().Add(5 * time.Second))
 			if err := ts.Handshake(); err != nil {
-				res <- seen{"tls-handshake-failed", nil}
+				collect("tls-handshake-failed", nil)
 				return
 			}
 			c.SetDeadline(time.Time{})
-			res <- seen{"tls", c16ReadBurst(ts, 1500*time.Millisecond)}
+			readLoop(ts, "tls", nil)
 			return
 		}
-		res <- seen{"tcp", first}
+		readLoop(c, "tcp", first)
 	}()
 	var target string
 	switch {
@@ -128,27 +174,19 @@ func c01TxReal(in []string) (out string) {
 		}
 		cleanup = append(cleanup, func() { master.Close() })
 		target = slave
+		fd := int(master.Fd()) // (Fd() switches the descriptor to blocking mode: call it once)
+		syscall.SetNonblock(fd, true)
 		go func() {
-			var got []byte
 			buf := make([]byte, 512)
-			deadline := time.Now().Add(1500 * time.Millisecond)
-			fd := int(master.Fd())
-			syscall.SetNonblock(fd, true)
-			quietSince := time.Time{}
-			for time.Now().Before(deadline) {
+			for !stopped() {
 				n, err := syscall.Read(fd, buf)
 				if n > 0 {
-					got = append(got, buf[:n]...)
-					quietSince = time.Now()
+					collect("serial", buf[:n])
 				} else if err != nil && err != syscall.EAGAIN && err != syscall.EIO {
-					break
-				}
-				if len(got) > 0 && time.Since(quietSince) > 60*time.Millisecond {
-					break
+					return
 				}
 				time.Sleep(2 * time.Millisecond)
 			}
-			res <- seen{"serial", got}
 		}()
 	case strings.Contains(scheme, "udp"):
 		pc, err := net.ListenPacket("udp", "127.0.0.1:0")
@@ -159,13 +197,16 @@ func c01TxReal(in []string) (out string) {
 		target = pc.LocalAddr().String()
 		go func() {
 			buf := make([]byte, 4096)
-			pc.SetReadDeadline(time.Now().Add(1500 * time.Millisecond))
-			n, _, err := pc.ReadFrom(buf)
-			if err != nil {
-				res <- seen{"udp", nil}
-				return
+			for !stopped() {
+				pc.SetReadDeadline(time.Now().Add(20 * time.Millisecond))
+				n, _, err := pc.ReadFrom(buf)
+				if n > 0 {
+					collect("udp", buf[:n])
+				}
+				if err != nil && !os.IsTimeout(err) {
+					return
+				}
 			}
-			res <- seen{"udp", append([]byte(nil), buf[:n]...)}
 		}()
 	default:
 		target = tl.Addr().String()
@@ -182,10 +223,6 @@ func c01TxReal(in []string) (out string) {
 	mc.SetUnitId(uint8(unhx(in[1])))
 	mc.SetEncoding(modbus.Endianness(atoi(in[2])), modbus.WordOrder(atoi(in[3])))
 	r := callOp(mc, in[4:])
-	wait := 2 * time.Second
-	if r == "err:params" {
-		wait = 250 * time.Millisecond // nothing must arrive
-	}
 	// C01 is about what is transmitted: the result is projected to rejected-locally / sent
 	if r == "err:params" {
 		r = "params"
@@ -193,15 +230,34 @@ func c01TxReal(in []string) (out string) {
 		r = "sent"
 	}
 	kind := map[string]string{"tcp": "tcp", "rtuovertcp": "tcp", "tcp+tls": "tls", "udp": "udp", "rtuoverudp": "udp", "rtu": "serial"}[scheme]
-	select {
-	case s := <-res:
-		if len(s.data) == 0 {
-			return s.kind + " none " + r
+	// let the bytes written by the call reach the peer: poll until something has
+	// arrived and the line has been quiet for a while (nothing must arrive for a rejected call)
+	deadline := time.Now().Add(3 * time.Second)
+	if r == "params" {
+		deadline = time.Now().Add(250 * time.Millisecond)
+	}
+	last, lastChange := -1, time.Now()
+	for time.Now().Before(deadline) {
+		mu.Lock()
+		n := len(got)
+		mu.Unlock()
+		if n != last {
+			last, lastChange = n, time.Now()
 		}
-		return s.kind + " " + hx(s.data) + " " + r
-	case <-time.After(wait):
+		if n > 0 && time.Since(lastChange) > 80*time.Millisecond {
+			break
+		}
+		time.Sleep(5 * time.Millisecond)
+	}
+	mu.Lock()
+	defer mu.Unlock()
+	if kindSeen == "tls-handshake-failed" {
+		return "tls-handshake-failed none " + r
+	}
+	if len(got) == 0 {
 		return kind + " none " + r
 	}
+	return kindSeen + " " + hx(got) + " " + r
 }
 
 func scnTxReal(o *Out, r *Rng, thorough bool) {
